@@ -5,7 +5,7 @@ Line-protocol driver for C11.  One case = one history through one service instan
 space separated tokens
 
   R:<conn>:<method>:<uri>:<ver>:<peer>:<hdrs>:<reqdata>:<acts>   serve a request
-        conn `-`|n   peer `-`|port   hdrs `-`|name=v,name=v   reqdata `-`|tag=v,…
+        conn `-`|n   peer `-`|port|`~` (not mentioned at all)   hdrs `-`|name=v,name=v   reqdata `-`|tag=v,…
         acts `-`| e<tag>=<v> (insert extension) , k<slot> (stash a clone) , x (handler never
         completes, caller drops the future)
   D:<slot>          drop the stashed handle
@@ -62,7 +62,8 @@ def parseOp (tok : String) : Option Op :=
   match tok.splitOn ":" with
   | ["R", conn, method, uri, ver, peer, hdrs, xd, acts] => do
     let conn ← optNat conn
-    let peer ← optNat peer
+    -- `~`: request built without mentioning a peer address (actix_http's TestRequest)
+    let peer ← if peer == "~" then some none else optNat peer
     let hdrs ← parsePairs hdrs
     let xd ← parseNatPairs xd
     let acts ← parseActs acts
